@@ -172,6 +172,9 @@ type vCtlMon struct {
 	offering      *int32       // backlog sessions: 1 while the source is waiting to hand over a block
 	plantIn       atomic.Value // string: base path in which the next START's state file is to be made uncreatable
 	planted       int64
+	startHold     int32 // the next Start is held right after the source has been sampled (a second client polls the status meanwhile)
+	startHeld     chan struct{}
+	startRelease  chan struct{}
 }
 
 func (m *vCtlMon) handlers() *verifHandlers {
@@ -207,6 +210,17 @@ func (m *vCtlMon) handlers() *verifHandlers {
 						} else if os.MkdirAll(target, 0o755) == nil {
 							atomic.AddInt64(&m.planted, 1)
 						}
+					}
+				}
+			case "start.sampled":
+				if atomic.CompareAndSwapInt32(&m.startHold, 1, 0) {
+					select {
+					case m.startHeld <- struct{}{}:
+					default:
+					}
+					select {
+					case <-m.startRelease:
+					case <-time.After(500 * time.Millisecond): // fall-through: a hold can never manufacture a deadlock
 					}
 				}
 			case "core.process.end":
@@ -417,11 +431,50 @@ func vFindBlock(dump, needle string) string {
 
 // ---------------------------------------------------------------- set-up of the sources
 
+// polledStart: a second client (another connection, so another goroutine of the server) asks for all status while this Start is under way:
+// the source has been sampled and is being prepared. The request does not go through the queue; it must not disturb the Start.
+func (k *vCtl) polledStart() func() {
+	m := k.mon
+	for len(m.startHeld) > 0 {
+		<-m.startHeld
+	}
+	atomic.StoreInt32(&m.startHold, 1)
+	polled := make(chan bool, 1)
+	cancel := make(chan struct{})
+	go func() {
+		select {
+		case <-m.startHeld:
+		case <-cancel: // the Start returned without reaching that point
+			polled <- false
+			return
+		}
+		var s string
+		var okay bool
+		ok := vWatched(k.c, "request SendAllStatus (second client, during Start)", 15*time.Second, func() { k.sc.SendAllStatus(&s, &okay) })
+		select {
+		case m.startRelease <- struct{}{}:
+		case <-time.After(time.Second):
+		}
+		polled <- ok
+	}()
+	return func() {
+		atomic.StoreInt32(&m.startHold, 0)
+		close(cancel)
+		if <-polled {
+			k.note("(a second client asked for all status while that Start was preparing the source)")
+			k.c.Cov("starts_polled_by_a_second_client", 1)
+		}
+	}
+}
+
 func (k *vCtl) startSource() bool {
 	sc := k.sc
 	var okay bool
 	k.npre, k.ns = 8, 32
 	sc.status.Npresamp, sc.status.Nsamples = k.npre, k.ns
+	if (k.kind == "triangle" || k.kind == "lancero") && k.c.Idx%4 == 1 {
+		defer k.polledStart()()
+	}
 	switch k.kind {
 	case "triangle":
 		k.nchan = 4
@@ -1189,10 +1242,139 @@ func (k *vCtl) heldRequest() {
 	}
 }
 
+// anySource gives the AnySource part of the running source (the harness is in the package).
+func (k *vCtl) anySource() *AnySource {
+	switch k.kind {
+	case "triangle":
+		return &k.sc.triangle.AnySource
+	case "lancero":
+		return &k.sc.lancero.AnySource
+	case "selfend":
+		return &k.self.AnySource
+	}
+	return nil
+}
+
+// twoClients: two connections at once (the server runs every connection in a goroutine of its own). While a block is in process,
+// client A asks for START with OFF files; as soon as that request waits at the queue, client B asks for a model with another number
+// of components on a channel that has a model. Both take effect at the coming block boundary, one after the other, in the order
+// the core loop takes them. Whatever that order: both callers get one reply, processing goes on, and afterwards the model the
+// channel projects with is the one its open OFF file states in its header (every OFF record must have that many coefficients).
+func (k *vCtl) twoClients() {
+	ds := k.anySource()
+	if k.dead || !k.active || k.selfEnded || k.wActive || k.lenUnknown || k.emtOn || k.mapLoaded || k.stateFull || ds == nil {
+		return
+	}
+	r := k.c.R
+	ch := r.Intn(k.nchan)
+	mk := func(rw, cl int) string {
+		d := make([]float64, rw*cl)
+		for i := range d {
+			d[i] = r.NormFloat64()
+		}
+		return vMatB64(mat.NewDense(rw, cl, d))
+	}
+	var okay bool
+	nb := 1 + r.Intn(2)
+	err, ret := k.do(fmt.Sprintf("ConfigureProjectorsBasis(ch=%d, %d components)", ch, nb), "ok", func() error {
+		return k.sc.ConfigureProjectorsBasis(&ProjectorsBasisObject{ChannelIndex: ch, ProjectorsBase64: mk(nb, k.ns), BasisBase64: mk(k.ns, nb), ModelDescription: "first"}, &okay)
+	})
+	if !ret || err != nil || k.dead {
+		return
+	}
+	k.hasProj[ch], k.sureProj[ch] = true, true
+	m := k.mon
+	for len(m.held) > 0 {
+		<-m.held
+	}
+	atomic.StoreInt32(&m.holdWanted, 1)
+	select {
+	case <-m.held:
+	case <-time.After(2 * time.Second):
+		atomic.StoreInt32(&m.holdWanted, 0)
+		return
+	}
+	before := atomic.LoadInt64(&m.queuedBefore)
+	waitQueued := func(n int64) {
+		for i := 0; i < 200 && atomic.LoadInt64(&m.queuedBefore) < before+n; i++ {
+			time.Sleep(500 * time.Microsecond)
+		}
+		time.Sleep(time.Millisecond)
+	}
+	var errB error
+	doneB := make(chan bool, 1)
+	go func() {
+		waitQueued(1) // client A's request is waiting at the queue
+		nb2 := nb + 1
+		pbo := &ProjectorsBasisObject{ChannelIndex: ch, ProjectorsBase64: mk(nb2, k.ns), BasisBase64: mk(k.ns, nb2), ModelDescription: "second"}
+		var okayB bool
+		go func() {
+			waitQueued(2) // both wait: the block may end now
+			select {
+			case m.release <- struct{}{}:
+			default:
+			}
+		}()
+		doneB <- vWatched(k.c, "request ConfigureProjectorsBasis (second client)", 15*time.Second, func() { errB = k.sc.ConfigureProjectorsBasis(pbo, &okayB) })
+	}()
+	errA, retA := k.do("WriteControl(START,off=true) [while a second client sends a model for channel "+fmt.Sprint(ch)+"]", "ok", func() error {
+		return k.sc.WriteControl(&WriteControlConfig{Request: "START", Path: k.dir, WriteOFF: true}, &okay)
+	})
+	if !<-doneB {
+		k.dead = true
+		return
+	}
+	if !retA || errA != nil || k.dead {
+		return
+	}
+	k.wActive, k.wPaused, k.wOff = true, false, true
+	ws := k.sc.ActiveSource.ComputeWritingState()
+	k.wDir = filepath.Dir(ws.FilenamePattern)
+	k.comment, k.commentBad = "", false
+	k.c.Cov("writing_sessions", 1)
+	k.c.Cov("two_clients_start_against_model", 1)
+	k.note("(second client: ConfigureProjectorsBasis(ch=%d, %d components) answered %v)", ch, nb+1, errB)
+	// read from inside the core loop (a queued request of the harness)
+	headerBases, modelRows, hasOff := -1, -1, false
+	ok := vWatched(k.c, "request (harness) model state", 15*time.Second, func() {
+		k.sc.runLaterIfActive(func() {
+			dsp := ds.processors[ch]
+			if dsp.DataPublisher.HasOFF() {
+				hasOff = true
+				headerBases = dsp.DataPublisher.OFF.NumberOfBases
+			}
+			if dsp.projectors != nil {
+				modelRows, _ = dsp.projectors.Dims()
+			}
+			k.sc.queuedResults <- nil
+		})
+	})
+	if !ok {
+		k.dead = true
+		return
+	}
+	if hasOff && headerBases != modelRows {
+		k.c.Violate("c11:model-changed-under-open-off-file", "channel %d writes an OFF file whose header states %d components, but after a START and a ConfigureProjectorsBasis from two clients (replies: %v and %v) it projects on %d: the next record cannot be written\nhistory: %v", ch, headerBases, errA, errB, modelRows, k.hist)
+		k.dead = true
+		return
+	}
+	if !hasOff {
+		k.c.Violate("c11:reply-class:WriteControl:want-ok", "START with OFF files was answered with success, but channel %d, which has a model, has no OFF file\nhistory: %v", ch, k.hist)
+		k.dead = true
+		return
+	}
+	if errB == nil {
+		k.c.Cov("two_clients_model_first", 1)
+	} else {
+		k.c.Cov("two_clients_start_first", 1)
+	}
+	k.progress("two clients")
+}
+
 func vRunControl(c *vCase) {
 	viper.Reset()
 	kind := []string{"triangle", "triangle", "lancero", "selfend", "selfend", "erroring"}[c.Idx%6]
-	mon := &vCtlMon{held: make(chan struct{}, 1), release: make(chan struct{})}
+	mon := &vCtlMon{held: make(chan struct{}, 1), release: make(chan struct{}), startHeld: make(chan struct{}, 1), startRelease: make(chan struct{})}
 	mon.overlap.Store("")
 	mon.plantIn.Store("")
 	verifInstall(mon.handlers())
@@ -1298,6 +1480,10 @@ func vRunControl(c *vCase) {
 		}
 		if kind != "erroring" && !k.selfEnded && vChance(r, 0.15) {
 			k.heldRequest()
+			continue
+		}
+		if c.Idx%5 == 3 && i == nreq/2 {
+			k.twoClients()
 			continue
 		}
 		if k.selfEnded {
@@ -1428,11 +1614,11 @@ func init() {
 		},
 		Run: vRunControl,
 		Meta: vMeta{Level: "exploration",
-			Rule: "case = one client session against an in-package SourceControl: 1-3 requests with no source, Start of Triangle / scripted Lancero card / ErroringSource / a self-ending source (error block or closed channel at a scripted request index, requests continuing at once or after it settled), then 12-30 requests drawn from every queued request type with valid and invalid arguments (negative, too large, empty, nil and 2^40 channel indices, invalid pulse lengths, malformed/truncated/empty/wrong-shape matrices, every write-control string with all file-type subsets, empty/huge labels and comments, coupling on sources without it, mix lists of unequal length, raw-block sizes 0/negative/2^50, pixel maps that do not cover the channel numbers) and single I/O faults (output base path is a file, comment.txt uncreatable, experiment-state file uncreatable or on a full disk, external-trigger file uncreatable); 15 % of the requests are issued while the hook holds a block inside ProcessSegments. Monitors: reply class vs. model, effect/ProcessSegments span overlap, >=2 further blocks processed after each reply, every call returns (wait-state analysis), process crash = violation of the journaled case; non-trivial = session completed; additions: partly valid group-trigger requests with a monitor of the GROUPTRIGGER update sent to clients, raw-block sizes up to MaxInt64, Stop-then-Start straight after a self-termination, and backlog sessions (a block on offer at every block boundary, enforced at the core.idle hook) with a starvation monitor counting blocks processed while a request waits",
-			Assumptions: []string{"single client (one goroutine issuing requests)", "the fire-and-forget mode of SetExperimentStateLabel is excluded as the property says", "where the statement does not fix the reply (raw-block size 0, deleting a connection that cannot exist, reading a comment after self-termination) either reply is accepted",
+			Rule: "case = one client session against an in-package SourceControl: 1-3 requests with no source, Start of Triangle / scripted Lancero card / ErroringSource / a self-ending source (error block or closed channel at a scripted request index, requests continuing at once or after it settled), then 12-30 requests drawn from every queued request type with valid and invalid arguments (negative, too large, empty, nil and 2^40 channel indices, invalid pulse lengths, malformed/truncated/empty/wrong-shape matrices, every write-control string with all file-type subsets, empty/huge labels and comments, coupling on sources without it, mix lists of unequal length, raw-block sizes 0/negative/2^50, pixel maps that do not cover the channel numbers) and single I/O faults (output base path is a file, comment.txt uncreatable, experiment-state file uncreatable or on a full disk, external-trigger file uncreatable); 15 % of the requests are issued while the hook holds a block inside ProcessSegments. Monitors: reply class vs. model, effect/ProcessSegments span overlap, >=2 further blocks processed after each reply, every call returns (wait-state analysis), process crash = violation of the journaled case; non-trivial = session completed; additions: partly valid group-trigger requests with a monitor of the GROUPTRIGGER update sent to clients, raw-block sizes up to MaxInt64, Stop-then-Start straight after a self-termination, and backlog sessions (a block on offer at every block boundary, enforced at the core.idle hook) with a starvation monitor counting blocks processed while a request waits; two directed scenarios with a second client (a second goroutine, as a second connection is served): SendAllStatus while a Start is held right after the source was sampled (1 session in 4 of Triangle/Lancero), and START with OFF files against ConfigureProjectorsBasis with another number of components, both waiting at the queue while a block is held (1 session in 5), after which the open OFF file's header and the model in use are read from inside the core loop and must agree",
+			Assumptions: []string{"one client issues the session's requests (one goroutine); a second client appears only in the two directed scenarios, where what it does is decided (no second stream of arbitrary requests)", "the fire-and-forget mode of SetExperimentStateLabel is excluded as the property says", "where the statement does not fix the reply (raw-block size 0, deleting a connection that cannot exist, reading a comment after self-termination) either reply is accepted",
 				"hangs are decided by wait-state analysis of two goroutine dumps 2 s apart after a 15 s watchdog, never by the clock alone"},
 			Guards: map[string]map[string]int{
-				"quick":    {"requests": 2500, "progress_checks": 1000, "requests_while_block_in_process": 100, "requests_after_self_termination": 150, "requests_pending_when_source_ends": 8, "io_fault_comment": 5, "io_fault_state_file": 8, "effects_run": 800, "source_triangle": 40, "source_lancero": 20, "source_selfend": 40, "source_erroring": 20, "writing_sessions": 30, "restarts_through_the_server": 120, "stop_is_first_request_after_self_termination": 8},
+				"quick":    {"requests": 2500, "progress_checks": 1000, "requests_while_block_in_process": 100, "requests_after_self_termination": 150, "requests_pending_when_source_ends": 8, "io_fault_comment": 5, "io_fault_state_file": 8, "effects_run": 800, "source_triangle": 40, "source_lancero": 20, "source_selfend": 40, "source_erroring": 20, "writing_sessions": 30, "restarts_through_the_server": 120, "stop_is_first_request_after_self_termination": 8, "starts_polled_by_a_second_client": 8, "two_clients_start_against_model": 4},
 				"thorough": {"requests": 30000, "requests_after_self_termination": 2000},
 			}},
 	})
